@@ -38,7 +38,8 @@ def run_check(pid, repo, scratch, seed, tier="quick"):
     except subprocess.TimeoutExpired:
         return pid, 2, "timeout", time.time() - t0
     lines = [l for l in out.split("\n") if l.startswith(("VIOLATION", "KNOWN-FINDING", "MACHINERY-ERROR", "failing input", "no longer checks"))]
-    return pid, rc, " | ".join(lines)[:700], time.time() - t0
+    lines.sort(key=lambda l: 0 if l.startswith("VIOLATION") else 1)  # the verdict first: the text is truncated
+    return pid, rc, " | ".join(l[:260] for l in lines)[:900], time.time() - t0
 
 
 def all_checks(props, repo, scratch, seed, workers=8):
@@ -57,6 +58,7 @@ def main():
     ap.add_argument("--only", nargs="*")
     ap.add_argument("--props", nargs="*")
     ap.add_argument("--clean-seeds", nargs="*", type=int, default=[])
+    ap.add_argument("--harmless", action="store_true", help="also apply the behaviour-preserving rewrites of seeded_harmless/ (every check must stay silent)")
     ap.add_argument("--out", default=os.path.join(VERIF, "seeded", "RESULTS.json"))
     args = ap.parse_args()
     props = args.props or sorted(PROPS)
@@ -76,6 +78,20 @@ def main():
             noisy = {p: v for p, v in r.items() if v["exit"] != 0}
             results.setdefault("_clean", {})[str(seed)] = {"noisy": noisy, "wall": {p: v["wall_s"] for p, v in r.items()}}
             print(f"clean tree seed={seed}: {'SILENT' if not noisy else 'NOISY ' + json.dumps(noisy)[:600]}")
+        if args.harmless:
+            hdir = os.path.join(VERIF, "seeded_harmless")
+            for hid in sorted(os.listdir(hdir)):
+                sh(["git", "-C", wt, "checkout", "--", "."])
+                rc_apply, out = sh(["git", "-C", wt, "apply", os.path.join(hdir, hid, "patch.diff")])
+                rc_tests, tout = sh([PY, "-m", "pytest", "-q", "-p", "no:cacheprovider", "-x"], cwd=wt, env=dict(os.environ, PYTHONDONTWRITEBYTECODE="1"), timeout=1200)
+                if rc_apply != 0 or rc_tests != 0:
+                    results.setdefault("_harmless", {})[hid] = {"error": "does not apply / tests fail"}
+                    continue
+                r = all_checks(props, wt, base, 0)
+                noisy = {p: v for p, v in r.items() if v["exit"] != 0}
+                results.setdefault("_harmless", {})[hid] = {"noisy": noisy}
+                print(f"harmless rewrite {hid}: {'SILENT' if not noisy else 'NOISY ' + json.dumps(noisy)[:700]}")
+            sh(["git", "-C", wt, "checkout", "--", "."])
         sdir = os.path.join(VERIF, "seeded")
         ids = sorted(d for d in os.listdir(sdir) if os.path.isfile(os.path.join(sdir, d, "patch.diff")))
         if args.only:
